@@ -374,7 +374,7 @@ class OpGuard(object):
 
     LIMIT = 300
 
-    def __init__(self, seconds=5.0):
+    def __init__(self, seconds=1.5):
         self.seconds = seconds
 
     def _alarm(self, signum, frame):
